@@ -4,6 +4,7 @@ import (
 	"fmt"
 	"go/token"
 	"go/types"
+	"sort"
 	"strings"
 
 	"golang.org/x/tools/go/ssa"
@@ -119,7 +120,7 @@ func c11(r *core.Run) {
 	r.Rule("C2", "veto and type: the dynamic type check dominates the database transaction; the before-change fan-out runs inside the update closure before the write and its error aborts the closure", 5)
 
 	for _, rel := range storePkgs {
-		fns := p.FuncsOfPkg(rel)
+		_ = p.FuncsOfPkg(rel)
 		short := rel[strings.LastIndex(rel, "/")+1:]
 		read := methodNamed(p, rel, "Store", "Read")
 		write := methodNamed(p, rel, "Store", "Write")
@@ -216,54 +217,11 @@ func c11(r *core.Run) {
 		chkRelease(wclose, "Unlock")
 
 		// ---- K2 cache coherence -------------------------------------------
+		c11CacheCoherence(r, "K2", rel)
 		val := methodNamed(p, rel, "readTxn", "Value")
 		muts := map[string]*ssa.Function{}
 		for _, n := range []string{"Create", "Update", "Delete"} {
 			muts[n] = methodNamed(p, rel, "writeTxn", n)
-		}
-		if val != nil {
-			// cache fields: fields of readTxn that Value() returns directly
-			cache := map[core.Field]bool{}
-			for _, ret := range core.Returns(val) {
-				if f, ok := core.LoadedField(ret.Results[0]); ok && f.Struct == qual(rel, "readTxn") {
-					cache[f] = true
-				}
-			}
-			if len(cache) == 0 {
-				r.OKTrivial("K2", short+".readTxn", "no-cached-value", "-", "Value() never returns a field of the transaction: nothing is cached")
-			}
-			for f := range cache {
-				// live writers: stores to f through a pointer receiver (not a local copy of a value receiver)
-				live := map[string]bool{}
-				for _, ac := range core.FieldAccesses(fns, func(g core.Field) bool { return g == f }) {
-					if ac.Kind != "store" {
-						continue
-					}
-					m := core.Outermost(ac.Fn)
-					if m.Signature.Recv() == nil {
-						continue
-					}
-					if _, isPtr := m.Signature.Recv().Type().(*types.Pointer); isPtr {
-						// a pointer-receiver helper whose every call site passes the address of
-						// a value receiver's local copy writes nothing that outlives the caller
-						for _, w := range persistentWriters(p, m, map[*ssa.Function]bool{}) {
-							live[w] = true
-						}
-					}
-				}
-				if len(live) == 0 {
-					r.OK("K2", short+".readTxn", "cache("+f.Name+")-is-dead", "-", "every method that assigns the cached value has a value receiver: the assignment never outlives the call, so reads always hit the database and see the transaction's own writes")
-					continue
-				}
-				var missing []string
-				for n, m := range muts {
-					if m != nil && !live[n] {
-						missing = append(missing, n)
-					}
-				}
-				r.Check(len(missing) == 0, "K2", short+".readTxn", "cache("+f.Name+")-refreshed-by-every-mutation", "-", "every mutation persistently refreshes the cached value",
-					fmt.Sprintf("the cached value is persistently written by %v but not refreshed by %v: after a mutation in the same write transaction Value() returns the stale value (own writes invisible, not-found lost, wrong before-values)", core.SortedKeys(live), missing))
-			}
 		}
 
 		// ---- E1 ------------------------------------------------------------
@@ -786,4 +744,78 @@ func fanoutFuncsOf(p *core.Prog, rel, tname, setter string) map[*ssa.Function]bo
 		}
 	}
 	return out
+}
+
+// c11CacheCoherence is rule K2 for one store package (shared with C13 / C14,
+// whose index deltas are computed from the before-values the transaction
+// reports).
+func c11CacheCoherence(r *core.Run, rule, rel string) {
+	p := r.P
+	fns := p.FuncsOfPkg(rel)
+	short := rel[strings.LastIndex(rel, "/")+1:]
+	val := methodNamed(p, rel, "readTxn", "Value")
+	muts := map[string]*ssa.Function{}
+	for _, n := range []string{"Create", "Update", "Delete"} {
+		muts[n] = methodNamed(p, rel, "writeTxn", n)
+	}
+	if val == nil {
+		r.Unres(rule, short+".readTxn.Value", "method missing")
+		return
+	}
+	// cache fields: fields of readTxn that Value() returns directly
+	cache := map[core.Field]bool{}
+	for _, ret := range core.Returns(val) {
+		if f, ok := core.LoadedField(ret.Results[0]); ok && f.Struct == qual(rel, "readTxn") {
+			cache[f] = true
+		}
+	}
+	if len(cache) == 0 {
+		r.OKTrivial(rule, short+".readTxn", "no-cached-value", "-", "Value() never returns a field of the transaction: nothing is cached")
+	}
+	for f := range cache {
+		// live writers: stores to f through a pointer receiver (not a local copy of a value receiver)
+		live := map[string]bool{}
+		refreshes := map[string]bool{}
+		for _, ac := range core.FieldAccesses(fns, func(g core.Field) bool { return g == f }) {
+			if ac.Kind != "store" {
+				continue
+			}
+			m := core.Outermost(ac.Fn)
+			if m.Signature.Recv() == nil {
+				continue
+			}
+			if _, isPtr := m.Signature.Recv().Type().(*types.Pointer); isPtr {
+				// a pointer-receiver helper whose every call site passes the address of
+				// a value receiver's local copy writes nothing that outlives the caller
+				ws := persistentWriters(p, m, map[*ssa.Function]bool{})
+				for _, w := range ws {
+					live[w] = true
+				}
+				// a refresh stores the value the mutation leaves behind: its new-value parameter, or nil
+				st := ac.Instr.(*ssa.Store)
+				isNew := isNilConst(st.Val)
+				if len(m.Params) > 1 && paramOrItsCell(core.Strip(st.Val), m.Params[1]) {
+					isNew = true
+				}
+				if isNew {
+					for _, w := range ws {
+						refreshes[w] = true
+					}
+				}
+			}
+		}
+		if len(live) == 0 {
+			r.OK(rule, short+".readTxn", "cache("+f.Name+")-is-dead", "-", "every method that assigns the cached value has a value receiver: the assignment never outlives the call, so reads always hit the database and see the transaction's own writes")
+			continue
+		}
+		var missing []string
+		for n, m := range muts {
+			if m != nil && !refreshes[n] {
+				missing = append(missing, n)
+			}
+		}
+		sort.Strings(missing)
+		r.Check(len(missing) == 0, rule, short+".readTxn", "cache("+f.Name+")-refreshed-by-every-mutation", "-", "every mutation persistently stores the value it leaves behind into the cache",
+			fmt.Sprintf("the cached value is persistently written by %v but %v do not store the value they leave behind (new value / nil) into it: after a mutation in the same write transaction Value() and the next mutation's before-value are stale (own writes invisible, not-found lost, wrong index deltas and change notifications)", core.SortedKeys(live), missing))
+	}
 }
